@@ -284,6 +284,7 @@ class HomeKitConnection:
         self._concurrency_limit = asyncio.Semaphore(concurrency_limit)
         self._reconnect_future: asyncio.Future[None] | None = None
         self._last_connector_error: Exception | None = None
+        self._lost_during_connect = False
         self.connected_host: str | None = None
         self.host_header: str | None = None
         self._pair_verify_failed_hosts: set[str] = set()
@@ -581,6 +582,7 @@ class HomeKitConnection:
         Called by a Protocol instance when eof_received happens.
         """
         logger.debug("Connection lost to %r: %s", self, exception)
+        self._lost_during_connect = True
         self._drop_transport()
         if self.closing:
             self.closed = True
@@ -678,7 +680,15 @@ class HomeKitConnection:
                 failed_host_count = len(self._pair_verify_failed_hosts)
                 try:
                     try:
-                        return await self._connect_once()
+                        self._lost_during_connect = False
+                        await self._connect_once()
+                        if not self._lost_during_connect or self.closing:
+                            return None
+                        # The connection was lost again before the setup finished
+                        # (e.g. reset while the owner re-subscribed). _connection_lost
+                        # could not start a new connector because this one was still
+                        # running, so treat it as a failed attempt and keep trying.
+                        raise AccessoryDisconnectedError("Connection lost during setup")
                     except BaseException:
                         # A failed attempt must not leave its connection open, otherwise
                         # the next attempt overwrites the transport and leaks it.
